@@ -212,13 +212,21 @@ def gen_histories(rnd, kind, k, zones, n, length):
                 y = rnd.choice([1985, 1990, 1997, 1998, 2051, 2052, 2060, 2067])
             else:
                 y = rnd.choice([1999, 2000, 2004, 2005, 2006, 2019, 2020, 2021, 2049, 2050] + [rnd.randint(2000, 2049)])
+            jan1 = False
             if op in ('utc', 'delta', 'abbrev') and rnd.random() < 0.15:
                 t = calendar.timegm((y, 1, 1, rnd.randint(0, 23), rnd.randint(0, 59), 0)) - EPOCH2000   # Jan 1: basic caches year-1
+                jan1 = True
             else:
                 t = calendar.timegm((y, 1, 4, 0, 0, 0)) - EPOCH2000 + rnd.randint(0, 355 * 86400)
             if not (-2**31 < t < 2**31 - 86400):
                 continue
-            h.append({'h': hd, 'op': op, 'year': key_year(kind, op, t), 'arg': t})
+            # exact repeats of an earlier argument (same instant again after other calls in between) are common in
+            # applications -- offset, DST shift and abbreviation of one instant are asked for in a row
+            if h and rnd.random() < 0.3:
+                c0 = rnd.choice(h[-6:])
+                if not c0['_jan1'] or op in ('utc', 'delta', 'abbrev'):      # (a January 1 instant is only used with the calls whose cache key the model knows)
+                    t, jan1 = c0['arg'], c0['_jan1']
+            h.append({'h': hd, 'op': op, 'year': key_year(kind, op, t), 'arg': t, '_jan1': jan1})
         hs.append(h)
     return hs
 
